@@ -515,6 +515,14 @@ func (p *plugin) synchronize(ctx context.Context, pods []*PodSandbox, containers
 				return nil, err
 			}
 
+			// never reach beyond what is left to send
+			if podsPerMsg > len(podsToSend) {
+				podsPerMsg = len(podsToSend)
+			}
+			if ctrsPerMsg > len(ctrsToSend) {
+				ctrsPerMsg = len(ctrsToSend)
+			}
+
 			log.Debugf(ctx, "oversized message, retrying in smaller chunks")
 		}
 	}
